@@ -409,6 +409,44 @@ fn prod_run(which: usize, data: &[u8], cuts: &[usize], names: &mut Interner) -> 
     })
 }
 
+/// multi-step histories over scripted readers (tool_oddreader.rs): the partition is the number of
+/// bytes the decoder consumed in each call; a failed history is a crashed run
+fn hist_out<I>(h: Option<crate::registry::tool_oddreader::Hist<I>>, n: usize, render: &mut dyn FnMut(I) -> ITok) -> (Vec<usize>, Out, Option<String>) {
+    use crate::registry::tool_oddreader::Step;
+    match h {
+        None => (vec![n], None, Some("panic".into())),
+        Some(h) => {
+            let note = h.fail.clone().or(if h.exhausted { None } else { Some("an exhausted decoder returned an item".into()) });
+            if note.is_some() {
+                return (vec![n], None, note);
+            }
+            let toks = h.steps.into_iter().map(|s| match s {
+                Step::Item(i) => render(i),
+                Step::OwnErr => ITok::Rw(vec![]),
+            });
+            (h.cuts, Some(toks.collect()), None)
+        }
+    }
+}
+
+fn prod_hist(which: usize, data: &[u8], spec: &(bool, Vec<i64>, Vec<u8>), names: &mut Interner) -> (Vec<usize>, Out, Option<String>) {
+    use crate::registry::tool_oddreader::drive;
+    let (sticky, script, ops) = spec;
+    if which == 0 {
+        let h = catch(AssertUnwindSafe(|| drive::<TTYEventDecoder>(data, script, *sticky, ops, &|_| false)));
+        hist_out(h, data.len(), &mut |e| match e {
+            TerminalEvent::Raw(b) => ITok::Rw(b),
+            e => ITok::It(names.code(&format!("{:?}", e)), vec![]),
+        })
+    } else {
+        let h = catch(AssertUnwindSafe(|| drive::<TTYCommandDecoder>(data, script, *sticky, ops, &|_| false)));
+        hist_out(h, data.len(), &mut |e| match e {
+            TerminalCommand::Raw(b) => ITok::Rw(b),
+            e => ITok::It(names.code(&format!("{:?}", e)), vec![]),
+        })
+    }
+}
+
 /// how far the reader ran ahead of the first event's bytes (bytes that had to be re-scheduled)
 fn lookahead_tag(steps: &Option<Vec<usize>>, first: &[ITok]) -> &'static str {
     let Some(steps) = steps else { return "?" };
@@ -430,9 +468,19 @@ fn run_prod(input: &Value) -> Case {
     let parts = vparts(&input["parts"]);
     let mut names = Interner { map: BTreeMap::new() };
     let table = span_table(which, &data, &mut names);
-    let outs: Vec<Out> = parts.iter().map(|cuts| prod_run(which, &data, cuts, &mut names)).collect();
+    let mut parts = parts;
+    let mut outs: Vec<Out> = parts.iter().map(|cuts| prod_run(which, &data, cuts, &mut names)).collect();
+    let mut notes = vec![];
+    for spec in crate::registry::tool_oddreader::hist_specs(&input["hist"]) {
+        let (cuts, out, note) = prod_hist(which, &data, &spec, &mut names);
+        parts.push(cuts);
+        outs.push(out);
+        notes.push(note);
+    }
     let mut j = input.clone();
     j["impl"] = Value::Array(outs.iter().map(jout).collect());
+    j["hist_notes"] = json!(notes);
+    j["hist_parts"] = json!(parts[parts.len() - notes.len()..]);
     j["names"] = json!(names.map.iter().map(|(k, v)| (v.to_string(), k.clone())).collect::<BTreeMap<String, String>>());
     let table_s = clist(table.iter().map(|(k, v)| format!("({}, {})", cbytes(k), copt(v.map(|c| c.to_string())))));
     // reader position after each decode() that returned an event, whole stream in one reader
@@ -472,6 +520,7 @@ fn run_prod(input: &Value) -> Case {
             format!("prod.len={}", (data.len() / 8) * 8),
             format!("prod.emptyreads={}", parts.iter().any(|p| p.contains(&0))),
             format!("prod.lookahead={}", lookahead_tag(&steps, &first)),
+            format!("prod.hist={}", notes.len()),
         ],
         nontrivial: esc && multi && has_item && parts.iter().any(|p| p.len() >= 2),
     }
@@ -503,8 +552,22 @@ fn run_utf8(input: &Value) -> Case {
             }))
         })
         .collect();
+    let mut parts = parts;
+    let mut outs = outs;
+    let mut notes = vec![];
+    for (sticky, script, ops) in crate::registry::tool_oddreader::hist_specs(&input["hist"]) {
+        let h = catch(AssertUnwindSafe(|| {
+            crate::registry::tool_oddreader::drive::<Utf8Decoder>(&data, &script, sticky, &ops, &|e: &std::io::Error| e.kind() == std::io::ErrorKind::InvalidInput)
+        }));
+        let (cuts, out, note) = hist_out(h, data.len(), &mut |c| ITok::It(c as u64, vec![]));
+        parts.push(cuts);
+        outs.push(out);
+        notes.push(note);
+    }
     let mut j = input.clone();
     j["impl"] = Value::Array(outs.iter().map(jout).collect());
+    j["hist_notes"] = json!(notes);
+    j["hist_parts"] = json!(parts[parts.len() - notes.len()..]);
     let head = format!("Utf8 {}", cbytes(&data));
     Case {
         coq: cruns(&head, &parts, &outs),
@@ -631,7 +694,66 @@ const KEYS: [&[u8]; 40] = [
     b"\x1bP", b"\x1b[<", b"\x1b[?", b"\x1b[1;", b"\x1b[2", b"\r", b"\t",
 ];
 
+/// integer constants written in the decoder / automata sources and their neighbours (harvested at run
+/// time): numeric parameters, digit counts, parameter counts and payload lengths are aimed at them
+fn src_bounds() -> &'static Vec<u64> {
+    static B: OnceLock<Vec<u64>> = OnceLock::new();
+    B.get_or_init(|| {
+        let mut v = source_boundaries(&["src/decoder.rs", "src/automata.rs"], 1 << 40);
+        if v.is_empty() {
+            v.push(32);
+        }
+        v
+    })
+}
+
+fn src_num(rng: &mut Rng, cap: u64) -> u64 {
+    let b = src_bounds();
+    let small: Vec<u64> = b.iter().copied().filter(|x| *x <= cap).collect();
+    if small.is_empty() {
+        cap.min(1)
+    } else {
+        small[rng.below(small.len() as u64) as usize]
+    }
+}
+
+/// a sequence one of whose sizes (payload bytes, parameter count, digit count, run of characters) is a source constant
+fn src_sized(rng: &mut Rng, which: usize) -> Vec<u8> {
+    let l = src_num(rng, 140) as usize;
+    if which == 1 {
+        return match rng.below(3) {
+            0 => format!("\x1b[{}m", vec!["1"; l.min(60)].join(";")).into_bytes(),
+            1 => format!("\x1b[38;5;{}m", "7".repeat(l.clamp(1, 60))).into_bytes(),
+            _ => (0..l).map(|_| 0x20 + rng.below(0x5f) as u8).collect(),
+        };
+    }
+    match rng.below(8) {
+        0 => {
+            let mut s = b"\x1b[200~".to_vec();
+            s.extend((0..l).map(|_| 0x20 + rng.below(0x5f) as u8));
+            s.extend(b"\x1b[201~");
+            s
+        }
+        1 => format!("\x1b[{}m", vec!["1"; l.min(60)].join(";")).into_bytes(),
+        2 => format!("\x1b[{};1R", "7".repeat(l.clamp(1, 60))).into_bytes(),
+        3 => format!("\x1b[?{}c", vec!["6"; l.clamp(1, 60)].join(";")).into_bytes(),
+        4 => format!("\x1b]{};{}\x07", rng.pick(&[10u32, 4, 52]), "a".repeat(l)).into_bytes(),
+        5 => format!("\x1b_Gi=1;{}\x1b\\", "E".repeat(l)).into_bytes(),
+        6 => format!("\x1bP1+r{}\x1b\\", "41".repeat(l.min(60))).into_bytes(),
+        _ => {
+            let mut s = vec![];
+            for _ in 0..l.min(40) {
+                s.extend(utf8_char(rng));
+            }
+            s
+        }
+    }
+}
+
 fn num(rng: &mut Rng) -> String {
+    if rng.chance(1, 6) {
+        return src_num(rng, 1 << 40).to_string();
+    }
     match rng.below(8) {
         0 => "1".to_string(),
         1 => (1 + rng.below(9)).to_string(),
@@ -673,7 +795,8 @@ fn piece(rng: &mut Rng, which: usize) -> Vec<u8> {
         format!("\x1b[{}m", body).into_bytes()
     };
     if which == 1 {
-        match rng.below(6) {
+        match rng.below(7) {
+            6 => return src_sized(rng, which),
             0 | 1 => return sgr(rng),
             2 => return utf8_char(rng),
             3 => return vec![0x20 + rng.below(0x5f) as u8],
@@ -686,10 +809,11 @@ fn piece(rng: &mut Rng, which: usize) -> Vec<u8> {
             }
         }
     }
-    match rng.below(23) {
+    match rng.below(25) {
+        23 | 24 => s.extend(src_sized(rng, which)),
         0..=2 => s.extend_from_slice(KEYS[rng.below(KEYS.len() as u64) as usize]),
         3 => s.extend(format!("\x1b[{};{}R", num(rng), num(rng)).into_bytes()),
-        4 => s.extend(format!("\x1b[<{};{};{}{}", rng.below(100), num(rng), num(rng), if rng.chance(1, 2) { 'M' } else { 'm' }).into_bytes()),
+        4 => s.extend(format!("\x1b[<{};{};{}{}", if rng.chance(1, 3) { num(rng) } else { rng.below(100).to_string() }, num(rng), num(rng), if rng.chance(1, 2) { 'M' } else { 'm' }).into_bytes()),
         5 => s.extend(format!("\x1b[?{};{}$y", rng.pick(&[1u32, 25, 1000, 1049, 2004, 2026, 77]), 1 + rng.below(4)).into_bytes()),
         6 => s.extend(format!("\x1b[?{};{}c", num(rng), num(rng)).into_bytes()),
         7 => s.extend(sgr(rng)),
@@ -831,6 +955,19 @@ fn gen_case(rng: &mut Rng) -> Value {
     json!({"kind":"gen","pats":pats,"items":items,"rejects":rejects,"input":jbytes(&data),"parts":parts})
 }
 
+/// reader scripts / caller programs of a case (tool_oddreader.rs): all of them for short streams, two otherwise
+fn hist(rng: &mut Rng, full: bool) -> Value {
+    let all = crate::registry::tool_oddreader::hist_gen(|n| rng.below(n), 2);
+    let mut all = all.as_array().cloned().unwrap_or_default();
+    if !full {
+        while all.len() > 2 {
+            let i = rng.below(all.len() as u64) as usize;
+            all.remove(i);
+        }
+    }
+    Value::Array(all)
+}
+
 pub fn generate(rng: &mut Rng, n: usize, tier: &str) -> Vec<Value> {
     let mut v = vec![];
     // fixed: the crate's own two chunking tests and the shapes the property names
@@ -845,7 +982,7 @@ pub fn generate(rng: &mut Rng, n: usize, tier: &str) -> Vec<Value> {
         (b"\xe2\x82\xac\x1b[m", 1),
     ];
     for (s, which) in fixed.iter() {
-        v.push(json!({"kind":"prod","which":which,"input":jbytes(s),"parts":all_cuts(s.len(), s.len() <= 14)}));
+        v.push(json!({"kind":"prod","which":which,"input":jbytes(s),"parts":all_cuts(s.len(), s.len() <= 14),"hist":hist(rng, true)}));
     }
     let _ = tier;
     while v.len() < n {
@@ -856,13 +993,13 @@ pub fn generate(rng: &mut Rng, n: usize, tier: &str) -> Vec<Value> {
                 let which = if rng.chance(1, 4) { 1 } else { 0 };
                 let s = stream(rng, which, 14);
                 let parts = if s.len() <= 9 { all_splits(s.len()) } else { all_cuts(s.len(), true) };
-                v.push(json!({"kind":"prod","which":which,"input":jbytes(&s),"parts":parts}));
+                v.push(json!({"kind":"prod","which":which,"input":jbytes(&s),"parts":parts,"hist":hist(rng, true)}));
             }
             11..=17 => {
                 let which = if rng.chance(1, 4) { 1 } else { 0 };
                 let s = stream(rng, which, 160);
                 let parts = some_parts(rng, s.len());
-                v.push(json!({"kind":"prod","which":which,"input":jbytes(&s),"parts":parts}));
+                v.push(json!({"kind":"prod","which":which,"input":jbytes(&s),"parts":parts,"hist":hist(rng, false)}));
             }
             _ => {
                 let mut s = vec![];
@@ -875,7 +1012,7 @@ pub fn generate(rng: &mut Rng, n: usize, tier: &str) -> Vec<Value> {
                 }
                 sanitize(&mut s);
                 let parts = if s.len() <= 10 { all_cuts(s.len(), true) } else { some_parts(rng, s.len()) };
-                v.push(json!({"kind":"utf8","input":jbytes(&s),"parts":parts}));
+                v.push(json!({"kind":"utf8","input":jbytes(&s),"parts":parts,"hist":hist(rng, s.len() <= 10)}));
             }
         }
     }
